@@ -298,7 +298,18 @@ def check_programs(ctx, cirq, cg, sympy, n):
         cirq.Circuit(cirq.measure(gq, cirq.GridQubit(0, 1), key='m'), cirq.X(gq).with_classical_controls(cirq.BitMaskKeyCondition('m', index=-1, target_value=2**24 + 1, equal_target=True, bitmask=2**24 + 1))),
         cirq.Circuit(cirq.Z(gq).with_tags('a', cg.PhysicalZTag()), (cirq.Z(gq) ** 0.5).with_tags(cg.PhysicalZTag(), 'b'), cirq.X(gq).with_tags('x', cg.CalibrationTag('t'), 'y')),
         cirq.Circuit(cirq.X(cirq.NamedQubit('3')), cirq.CZ(cirq.NamedQubit('1_2'), cirq.NamedQubit('plain'))),
+        # line and grid qubits with negative coordinates, also as the targets of a sub-circuit's qubit map
+        cirq.Circuit(cirq.X(cirq.LineQubit(-1)) ** 0.5, cirq.CZ(cirq.LineQubit(-3), cirq.LineQubit(2)), cirq.Y(cirq.LineQubit(0)) ** 0.25,
+                     cirq.CircuitOperation(cirq.FrozenCircuit(cirq.X(cirq.LineQubit(0)) ** 0.5, cirq.CZ(cirq.LineQubit(0), cirq.LineQubit(1))), qubit_map={cirq.LineQubit(0): cirq.LineQubit(-2), cirq.LineQubit(1): cirq.LineQubit(7)})),
+        cirq.Circuit(cirq.X(cirq.GridQubit(-1, 2)) ** 0.5, cirq.CZ(cirq.GridQubit(-1, 2), cirq.GridQubit(-1, -3)), cirq.measure(cirq.GridQubit(0, -4), key='m')),
     ]
+    # qubit ids by themselves
+    for qq in [cirq.LineQubit(x) for x in (-12, -3, -1, 0, 1, 10, 123456)] + [cirq.GridQubit(r, c) for r, c in ((-1, 2), (3, -4), (-5, -6), (0, 0), (12, 345))] + [cirq.NamedQubit(x) for x in ('a', 'q_1', 'x-1', '-', 'c_1_2')]:
+        ctx.count('check', 'qubit-id-roundtrip')
+        pid = cg.api.v2.qubit_to_proto_id(qq)
+        back_q = cg.api.v2.qubit_from_proto_id(pid)
+        if back_q != qq and not (isinstance(qq, cirq.NamedQubit) and not isinstance(back_q, cirq.NamedQubit)):
+            ctx.report_witness('program:roundtrip:qubit-id', 'a qubit does not come back from its proto id', {'lines': [{'qubit': repr(qq), 'id': pid}], 'impl_out': [repr(back_q)], 'spec_out': [repr(qq)], 'theorem_or_correspondence': 'qubit ids'})
     for i in range(n + len(corpus)):
         if i < len(corpus):
             circuit, keys = corpus[i], []
@@ -560,6 +571,33 @@ def check_devices(ctx, cirq, cg, n):
             if isinstance(g, cirq.ZPowGate) and rng.random() < 0.5:
                 op = op.with_tags(cg.PhysicalZTag())
             cand.append(op)
+        # sub-circuit operations whose qubit map decides where the body acts: the verdict is that of the mapped body, operation by operation
+        subs = []
+        if len(grid) >= 3:
+            for _ in range(6):
+                body_qs = cirq.LineQubit.range(3)
+                body = cirq.FrozenCircuit(cirq.CZ(body_qs[0], body_qs[1]), cirq.X(body_qs[2]))
+                targets = rng.sample(grid + [cirq.GridQubit(7, 7)], 3)
+                subs.append((cirq.CircuitOperation(body, qubit_map=dict(zip(body_qs, targets))), [cirq.CZ(targets[0], targets[1]), cirq.X(targets[2])]))
+                inner = cirq.FrozenCircuit(cirq.CZ(*rng.sample(grid, 2)), cirq.X(rng.choice(grid)))
+                if len(inner.all_qubits()) == 3:
+                    perm = sorted(inner.all_qubits())
+                    shuffled = rng.sample(perm, 3)
+                    subs.append((cirq.CircuitOperation(inner, qubit_map=dict(zip(perm, shuffled))), list(cirq.CircuitOperation(inner, qubit_map=dict(zip(perm, shuffled))).mapped_circuit().all_operations())))
+        for sub, flat in subs:
+            def ok_flat(o):
+                return o in dev.metadata.gateset and all(q in valid_q for q in o.qubits) and (len(o.qubits) < 2 or frozenset(o.qubits) in valid_pairs)
+            want = all(ok_flat(o) for o in flat)
+            verdicts = {}
+            for name, f in (('validate_operation', lambda: dev.validate_operation(sub)), ('validate_circuit', lambda: dev.validate_circuit(cirq.Circuit(sub))), ('validate_moment', lambda: dev.validate_moment(cirq.Moment(sub)))):
+                try:
+                    f()
+                    verdicts[name] = True
+                except ValueError:
+                    verdicts[name] = False
+            ctx.count('check', f'device-validate-subcircuit:{want}')
+            if any(v != want for v in verdicts.values()):
+                ctx.report_witness('device:validate:subcircuit', 'a sub-circuit operation with a qubit map is not validated as its mapped body (operation by operation)', dict(rep, impl_out=[repr(sub)[:600], verdicts], spec_out=[want]))
         for op in cand:
             def accepts(d):
                 try:
